@@ -11,7 +11,7 @@ pub fn def() -> PropDef {
 	PropDef {
 		id: "C17",
 		level: "exploration",
-		rule: "(a, exhaustive) all 2^7 x 3 = 384 ColumnOptions values as single-column metadata, plus generated 2-4 column lists: write_metadata -> load_metadata returns equal options, salt and version. (b, generated) pairs (stored options, requested options) differing in column count or in >=1 flag of one column (requested options valid): Db::open and Db::open_or_create return Err and a directory snapshot (names, lengths, content hashes; lock ignored) is unchanged; Db::open of a missing path returns Err and creates no path component. (c, generated) databases of 1-5 mixed columns with generated content, optionally captured as a crash image with pending (synced, unapplied) logs; one of add_column / drop_last_column / reset_column(i, Some|None) / clear_column(i); reopen with the resulting options: every other column observes exactly as before, the affected column is empty under its (new) configuration and accepts writes. Non-trivial: (b) always; (c) pending logs present, or >=3 columns; distinct = distinct case fingerprints",
+		rule: "(a, exhaustive) all 2^7 x 3 = 384 ColumnOptions values as single-column metadata, plus generated 2-4 column lists: write_metadata -> load_metadata returns equal options, salt and version. (b, generated; half of the cases on a directory as an unclean stop leaves it - applied log files waiting, reclaimed log files kept empty, a synced log pending - and with open / open_or_create / open_read_only) pairs (stored options, requested options) differing in column count or in >=1 flag of one column (requested options valid): Db::open and Db::open_or_create return Err and a directory snapshot (names, lengths, content hashes; lock ignored) is unchanged; Db::open of a missing path returns Err and creates no path component. (c, generated) databases of 1-5 mixed columns with generated content, optionally captured as a crash image with pending (synced, unapplied) logs; one of add_column / drop_last_column / reset_column(i, Some|None) / clear_column(i); reopen with the resulting options: every other column observes exactly as before, the affected column is empty under its (new) configuration and accepts writes. Non-trivial: (b) always; (c) pending logs present, or >=3 columns; distinct = distinct case fingerprints",
 		assumptions: &["requested options are valid (Db::open asserts Options::is_valid)", "'as before' for a directory with pending logs = the state a plain reopen of a copy of that directory shows"],
 		run,
 		replay,
